@@ -52,8 +52,7 @@ def _D(x, y, T):
     return ('[]', ('[]', T + '::_dists', x), y)
 
 
-def r2(ctx, fs):
-    rid = 'C10.R2'
+def r2(ctx, fs, rid='C10.R2'):
     ctx.rule(rid, 'propagate(lit): asserted constraint (to - from <= d): conflict iff dist[to][from] < -d, else edge (from,to,d) propagated when dist[from][to] > d; '
                   'negated: conflict iff dist[from][to] <= d, else edge (to,from,-d-unit) when dist[to][from] >= -d (unit = 1 / epsilon)', floor=8)
     for th in ('idl', 'rdl'):
